@@ -70,6 +70,11 @@ C = {
    "Seeded generation of hostile message streams from 1-3 harness-scripted SSH servers to the five real clients, chunked down to 1 byte; each scenario runs twice with the same "
    "decision trace (colours on / off): no panic may reach the top of a client goroutine and the outputs must agree after removing SGR sequences from both.",
    "deterministic simulation: scripted hostile servers on the simulated network, twin execution under one decision trace (colour on/off), panic capture"),
+ "C09": ("exploration", "5 C09",
+   "Seeded generation of authorized_keys files (key types, options, comments, blank lines, CRLF), job configurations with AllowFrom names resolved by a simulated resolver, and "
+   "concurrent login attempts from several simulated hosts over real SSH handshakes; outcomes are compared with a decision table written from the statement; granted health "
+   "sessions are fed arbitrary commands and must never receive file content.",
+   "deterministic simulation: multi-party SSH handshakes on the simulated network with simulated DNS, decision-table oracle"),
 }
 
 checks = []
